@@ -95,14 +95,19 @@ struct String {
     }
 
     String &operator=(const Char_T *str) {
-        deallocate();
+        // Copy before releasing: str can point into this string's own storage (s = s.First() + 1).
+        Char_T *old_storage = Storage();
         copyString(str, StringUtils::Count(str));
+        Memory::Deallocate(old_storage);
         return *this;
     }
 
     String &operator+=(String &&src) {
         Write(src.First(), src.Length());
-        src.Reset();
+
+        if (this != &src) {
+            src.Reset();
+        }
 
         return *this;
     }
